@@ -33,9 +33,15 @@ def map_rules(rep, repo, with_heap=True):
     """Pins / alloc / alias / size rules of the memory map (also included by C01, C02, C03, C05, C06 whose results
     depend on live signals not being overwritten)."""
     smod, init = simops.simops_init(repo)
-    P = simops.Passes(init)
+    from checks import c07
     body = body_no_doc(init)
     flat = [cz(s) for s in body]
+    if c07.evaluated_block(rep, repo, smod, init, ('C08.pins', 'C08.alloc', 'C08.alias', 'C08.size')):
+        outside_block(rep, repo, smod, init, flat)
+        if with_heap:
+            heap_effects(rep, smod)
+        return smod
+    P = simops.Passes(init)
 
     # ---- 1. pins
     rep.rule('C08.pins', 'zero/tmp/tmp2, every PI/PPI slot and every line captured by an s_node get ref_count += 1 (stem-substituted); the only decrement is the per-operand one')
@@ -99,6 +105,17 @@ def map_rules(rep, repo, with_heap=True):
     if not ok:
         rep.violate('C08.alloc', smod, init, '; '.join(ab[-3:]), 'per op: o_idx = op[1]; cap = max(c_caps_min, c_caps[o_idx]); self.c_locs[o_idx], self.c_caps[o_idx] = h.alloc(cap), cap - '
                     'the recorded capacity must be exactly the allocated size of the output line', node=P.alloc_op_loop)
+    outside_block(rep, repo, smod, init, flat)
+    ok = 'self.c_locs=np.full((self.c_locs_len,),-1,dtype=np.int32)' in flat and 'self.c_caps=np.zeros((self.c_locs_len,),dtype=np.int32)' in flat
+    rep.ob('C08.alloc', 'c_locs starts at -1 (no memory), c_caps at 0', ok)
+    if not ok:
+        rep.violate('C08.alloc', smod, init, 'c_locs/c_caps init', 'c_locs must start as -1 ("no memory") and c_caps as 0 for all c_locs_len entries', node=init)
+    _map_rules_rest(rep, repo, smod, init, P, body, flat, pin_loop, with_heap)
+    return smod
+
+
+def outside_block(rep, repo, smod, init, flat):
+    """the parts of the map rules that concern code outside the evaluated block: what the simulators pass to SimOps, the expansion of a uniform capacity"""
     wmod = repo.mod('wave_sim')
     wi = wmod.func('WaveSim.__init__')
     sup = [c for c in find_all(wi, ast.Call) if cz(c.func) == 'super().__init__']
@@ -119,11 +136,9 @@ def map_rules(rep, repo, with_heap=True):
     rep.ob('C08.alloc', 'uniform capacity expands to every line + 3 special slots', ok)
     if not ok:
         rep.violate('C08.alloc', smod, init, 'c_caps expansion', 'an integer c_caps must expand to len(circuit.lines) + 3 entries', node=init)
-    ok = 'self.c_locs=np.full((self.c_locs_len,),-1,dtype=np.int32)' in flat and 'self.c_caps=np.zeros((self.c_locs_len,),dtype=np.int32)' in flat
-    rep.ob('C08.alloc', 'c_locs starts at -1 (no memory), c_caps at 0', ok)
-    if not ok:
-        rep.violate('C08.alloc', smod, init, 'c_locs/c_caps init', 'c_locs must start as -1 ("no memory") and c_caps as 0 for all c_locs_len entries', node=init)
 
+
+def _map_rules_rest(rep, repo, smod, init, P, body, flat, pin_loop, with_heap):
     # ---- 4. aliasing order
     rep.rule('C08.alias', 'stem -> branch copy of (loc, cap) precedes the n.ins[0] -> PPO slot copy; both copy loc and cap together')
     stem_loop = next((l for l in body if isinstance(l, ast.For) and cz(l.iter) == 'enumerate(stems)'), None)
@@ -197,9 +212,37 @@ def heap_effects(rep, smod):
     rep.rule('C08.heap-maxsize', 'max_size is raised to current_size after every growth of current_size')
     rep.rule('C08.heap-keys', 'chunks[...] is only accessed at addresses known to be chunk keys (the freed chunk, entries of `released`, or proven equal to one)')
     rid = {'tiling': 'C08.heap-tiling', 'returned': 'C08.heap-returned', 'released': 'C08.heap-released', 'maxsize': 'C08.heap-maxsize', 'keys': 'C08.heap-keys'}
+    # `released` is kept in address order: free() finds the neighbours of a chunk with bisect and takes the last entry as the chunk at the end of
+    # the range. Only order-preserving mutators may touch it (insort*, del / pop at a position, replacing the entry at the bisect position).
+    rep.rule('C08.heap-order', '`released` is only changed by order-preserving operations (insort, del / pop of an entry, store at a bisect position); never sorted by another key, reversed, appended to')
+    nmut = 0
+    disordered = set()
+    for q, f in sorted(smod.funcs.items()):
+        if not q.startswith('Heap.') or q == 'Heap.__init__':
+            continue
+        for c in find_all(f, ast.Call):
+            fn = c.func
+            if isinstance(fn, ast.Attribute) and cz(fn.value) == 'self.released':
+                nmut += 1
+                bad = fn.attr in ('append', 'extend', 'insert', 'reverse', 'appendleft') or (fn.attr == 'sort' and (c.args or c.keywords))
+                ok = not bad
+                rep.ob('C08.heap-order', f'{q}: self.released.{fn.attr}(...)', ok)
+                if bad:
+                    disordered.add(q)
+                    rep.violate('C08.heap-order', smod, f, c, f'{q}: `{norm(c)[:80]}` can leave `released` out of address order; Heap.free locates the neighbouring free chunks with bisect and '
+                                f'trims the range by `released[-1]`: adjacent free chunks are then no longer merged and the heap does not shrink (allocations creep upwards)', node=c)
+        for st in find_all(f, ast.Assign):
+            for t in st.targets:
+                if cz(t) == 'self.released' and not (isinstance(st.value, ast.Call) and call_name(st.value) in ('sorted',) and not st.value.keywords):
+                    nmut += 1
+                    disordered.add(q)
+                    rep.ob('C08.heap-order', f'{q}: self.released = ...', False)
+                    rep.violate('C08.heap-order', smod, f, st, f'{q}: `released` is re-bound to `{norm(st.value)[:60]}`; it must stay the address-ordered list free() relies on', node=st)
     for q in ('Heap.alloc', 'Heap.free'):
         f = smod.func(q)
         n = 0
+        if q in disordered:
+            continue      # the symbolic path analysis models `released` as an ordered list: not applicable to a method that breaks the order
         for res in heapsym.analyse(f, q):
             n += 1
             desc = ' ; '.join(res['trace'])[:300]
